@@ -43,6 +43,16 @@ func genCase(rng *rand.Rand, mode string, idx int) Case {
 		case x < 26:
 			return Op{K: "SetFT", A: a, S: rng.Intn(2), V: rng.Intn(7)}
 		case x < 30:
+			switch rng.Intn(10) { // touch-only operations (zero amounts)
+			case 0:
+				return Op{K: "AddBalance0", A: a}
+			case 1:
+				return Op{K: "SubBalance0", A: a}
+			case 2:
+				return Op{K: "SubFT0", A: a, S: rng.Intn(2)}
+			case 3:
+				return Op{K: "Transfer0", A: a, B: addr()}
+			}
 			return Op{K: "TouchFT", A: a, S: rng.Intn(2)}
 		case x < 37:
 			v := rng.Intn(4)
@@ -247,6 +257,8 @@ func directedCases(mode string) []Case {
 		{{K: "SetNonce", A: 1, V: 1}},
 		{{K: "SetNonce", A: 1, V: 1}, {K: "SetCode", A: 1, V: 7}}, // code only in the uncommitted state
 		{{K: "SetData", A: 1, S: 1, V: 1}, {K: "Reopen", D: true}},
+		{{K: "CreateAccount", A: 1}, {K: "Reopen", D: false}},                                                       // plain empty committed account
+		{{K: "BindTokB"}, {K: "AddFT", A: 1, S: 1, V: 2}, {K: "SetData", A: 1, S: 1, V: 1}, {K: "Reopen", D: true}}, // empty()-looking, owns storage, holds a bound token
 		{{K: "SetData", A: 1, S: 1, V: 1}, {K: "SetNonce", A: 1, V: 2}, {K: "Reopen", D: true}},
 		{{K: "SetCode", A: 1, V: 1}, {K: "SetState", A: 1, S: 0, V: 2}, {K: "AddBalance", A: 1, V: 4}, {K: "Reopen", D: true}},
 		{{K: "AddFT", A: 1, S: 0, V: 2}, {K: "Reopen", D: true}},
@@ -258,6 +270,7 @@ func directedCases(mode string) []Case {
 	muts := []Op{
 		{K: "SetData", A: 1, S: 1, V: 2}, {K: "SetData", A: 1, S: 2, V: 1}, {K: "RemoveData", A: 1, S: 1}, {K: "SetState", A: 1, S: 0, V: 1},
 		{K: "AddFT", A: 1, S: 0, V: 1}, {K: "SubFT", A: 1, S: 0, V: 1}, {K: "SetFT", A: 1, S: 0, V: 3}, {K: "TouchFT", A: 1, S: 0},
+		{K: "TouchFT", A: 1, S: 1}, {K: "AddBalance0", A: 1}, {K: "SubBalance0", A: 1}, {K: "SubFT0", A: 1, S: 0}, {K: "SubFT0", A: 1, S: 1}, {K: "Transfer0", A: 1, B: 2}, {K: "Transfer0", A: 2, B: 1},
 		{K: "SetNonce", A: 1, V: 2}, {K: "SetNonce", A: 1, V: 0}, {K: "IncreaseNonce", A: 1},
 		{K: "AddBalance", A: 1, V: 3}, {K: "SubBalance", A: 1, V: 1}, {K: "SetBalance", A: 1, V: 2}, {K: "Transfer", A: 1, B: 2, V: 1}, {K: "Transfer", A: 2, B: 1, V: 1},
 		{K: "SetCode", A: 1, V: 2}, {K: "SetCode", A: 1, V: 0}, {K: "CreateAccount", A: 1}, {K: "Suicide", A: 1},
